@@ -779,8 +779,23 @@ def packetfifo_geometry(ctx, rid):
                                                                      "given": lin.add(L("param_depth"), one)})):
         what = "payload" if store == "self.payload_fifo" else "parameter"
         depth = {br: arg(store, br, 1) for br in envs}
-        ok = all(d is not None and lin.sign(lin.sub(lin.linform(d), want[br])) == 0 and not lin.sub(lin.linform(d), want[br])
-                 for br, d in depth.items())
+        # depths compared by value (the default may be spelled as an `if` statement or as a conditional expression)
+        from . import pyconst as _pc
+
+        def _depth_ok(br, d):
+            if d is None:
+                return False
+            for pd in (8, 5):
+                for prm in ((None,) if br == "none" else (3, 16)):
+                    exp = pd if what == "payload" else ((pd if prm is None else prm) + 1)
+                    try:
+                        got = _pc.Interp({"payload_depth": pd, "param_depth": prm}).ev(d)
+                    except Exception:       # noqa
+                        return False
+                    if got != exp:
+                        return False
+            return True
+        ok = all(_depth_ok(br, d) for br, d in depth.items())
         role = ("payload store = SyncFIFO(payload description, payload_depth, buffered)" if what == "payload" else
                 "parameter store = SyncFIFO(param description, param_depth, buffered)")
         b = arg(store, "given", 2)
